@@ -128,3 +128,48 @@ func detectReportFocus(input []byte) (hasRF bool, width int, msg Msg) {
 	}
 	return false, 0, nil
 }
+
+// extSequencePrefixes contains every proper prefix of the known sequences.
+var extSequencePrefixes = func() map[string]struct{} {
+	s := map[string]struct{}{}
+	for seq := range extSequences {
+		for i := 1; i < len(seq); i++ {
+			s[seq[:i]] = struct{}{}
+		}
+	}
+	return s
+}()
+
+// isIncompleteEvent reports whether input, which extends to the end of a
+// completely filled read buffer, may be the beginning of an event whose
+// remainder has not been read yet.
+func isIncompleteEvent(input []byte) bool {
+	if len(input) == 0 || input[0] != '\x1b' {
+		return false
+	}
+	// A known sequence may still become a longer known sequence.
+	if _, ok := extSequencePrefixes[string(input)]; ok {
+		return true
+	}
+	if len(input) < 2 || input[1] != '[' {
+		return false
+	}
+	// A focus report is only recognized on its own.
+	if hasRF, _, _ := detectReportFocus(input); hasRF {
+		return true
+	}
+	// An X10 mouse event is followed by three bytes.
+	if len(input) >= 3 && input[2] == 'M' {
+		return len(input) < 6 //nolint:mnd
+	}
+	// A CSI sequence (which includes SGR mouse events and the bracketed paste
+	// markers) ends with a final byte.
+	i := 2
+	for i < len(input) && input[i] >= 0x30 && input[i] <= 0x3f {
+		i++
+	}
+	for i < len(input) && input[i] >= 0x20 && input[i] <= 0x2f {
+		i++
+	}
+	return i == len(input)
+}
